@@ -20,9 +20,9 @@ PROPERTIES = {
     },
     "C06": {
         "level": "model_checking",
-        "quick": [{"match": "VerifH_c06_.*", "timeout": 900, "shards": {"VerifH_c06_l2": 12}, "sharddepth": 12,
+        "quick": [{"match": "VerifH_c06_.*", "timeout": 900, "shards": {"VerifH_c06_l2": 10, "VerifH_c06_glob": 3, "VerifH_c06_keyspace_reports": 3}, "sharddepth": 12,
                    "allow_unsupported": ["non-ASCII", "symbolic allocation size", "ParseFloat", "opaque"]}],
-        "thorough": [{"match": "VerifH_c06_.*", "timeout": 3000, "shards": {"VerifH_c06_l2": 14}, "sharddepth": 12,
+        "thorough": [{"match": "VerifH_c06_.*", "timeout": 3000, "shards": {"VerifH_c06_l2": 12, "VerifH_c06_glob": 6, "VerifH_c06_keyspace_reports": 4}, "sharddepth": 12,
                    "allow_unsupported": ["non-ASCII", "symbolic allocation size", "ParseFloat", "opaque"]}],
         "bounds": {}, "outside": [], "assumptions": [],
     },
